@@ -73,6 +73,12 @@ chk("C20", "model_checking", C20_TEXT_E,
     "stateless model checking (controlled cooperative scheduler over instrumented real code, deviation-bounded DFS of schedules)",
     "DESIGN.md §3.4, §5 C20", "schedx")
 
+chk("C15", "exploration",
+    "Exhaustive product program x account kind x vesting end time x clock placement on the real app: 49 (thorough 77) target accounts per world (module accounts, base accounts, contract, the four vesting kinds as zero-balance zero-sequence and as funded multi-denom accounts with end times around the block time) x 19 (40) programs (plain tx / CALL / STATICCALL / BALANCE / EXTCODE* / value transfer / SELFDESTRUCT beneficiary / the account as sender spending into locked coins, through FinalizeBlock on a fresh app; CreateAccount / DestroyAccount / Suicide / SubBalance at StateDB level on CacheContext branches) in two worlds whose block time lies before (2001) and after (2100) any plausible wall clock. After every case all auth accounts, balances of every denom, code hash and storage are compared with the pre-state: protected accounts survive with the same type and locked coins unless the tx fails as a whole, only empty or self-destructed accounts disappear, deleted accounts leave nothing behind, and the vesting cut-off follows block time.",
+    "Exhaustive over the stated finite alphabet. The oracle uses block time only; the wall clock is read only to label findings of the (fixed) wall-clock defect. Locked amounts are taken from the SDK's LockedCoins(blockTime). Permanently locked accounts count as never-ending vesting.",
+    "exhaustive product of programs x account kinds x times on the real app (FinalizeBlock and StateDB API on branch states) with full pre/post account observation",
+    "DESIGN.md §5 C15", "grid")
+
 NOT_YET = "check not built yet in this round (planned, see DESIGN.md §9)"
 
 def main():
